@@ -14,6 +14,7 @@ import PintModel.Gen.FormatTables
 import PintModel.Model.Context
 import PintModel.Model.GroupSys
 import PintModel.Model.Rewrite
+import PintModel.Model.Wraps
 import PintModel.Gen.DefaultRegistry
 
 open Lean
@@ -487,6 +488,68 @@ def stepRw (st : DriverState) (j : Json) : DriverState × Json :=
         | _ => (st, badJ s!"rw: unknown f {f}"))
   | none => (st, badJ "rw: f")
 
+
+/-! ### wraps / check decorators (C17) -/
+
+def jVal? (j : Json) : Option Wraps.Val :=
+  match fRat j "num" with
+  | some x => some (.num x)
+  | none => do pure (.q (← fRat j "m") (← fUC j "u"))
+
+def valJ : Wraps.Val → Json
+  | .q m u => Json.mkObj [("m", ratJ m), ("u", ucJ u)]
+  | .num x => Json.mkObj [("num", ratJ x)]
+
+def jSpec? (j : Json) : Option Wraps.Spec :=
+  match j with
+  | Json.null => some .none
+  | _ => match fUC j "unit" with
+    | some u => some (.unit u)
+    | none => (fUC j "ref").map .ref
+
+def jKwVal? (j : Json) : Option (List (String × Wraps.Val)) := do
+  let a ← jArr? j
+  a.toList.mapM fun e => do
+    let p ← jArr? e
+    pure (← jStr? (← p[0]?), ← jVal? (← p[1]?))
+
+def jSig? (j : Json) : Option Wraps.Sig := do
+  let a ← jArr? j
+  a.toList.mapM fun e => do
+    pure { name := ← fStr e "name", default := (field e "default" >>= jVal?) }
+
+def stepWraps (st : DriverState) (j : Json) : DriverState × Json :=
+  let R0 := st.reg
+  let conv : Rat → UC → UC → Except Err Rat := fun x src dst =>
+    (registerKeys (registerKeys R0 src) dst).convertNM false x src dst
+  let dimOf : Wraps.Val → Except Err UC := fun v => match v with
+    | .q _ u => (registerKeys R0 u).getDimensionality u
+    | .num _ => .ok []
+  match fStr j "f", field j "sig" >>= jSig?, (field j "args" >>= jArr?) >>= (fun a => a.toList.mapM jVal?), field j "kw" >>= jKwVal? with
+  | some "call", some sig, some args, some kw =>
+    let specs? := (field j "specs" >>= jArr?) >>= (fun a => a.toList.mapM jSpec?)
+    let ret? : Option Wraps.Ret := match field j "ret" with
+      | some r => (match field r "tuple" >>= jArr? with
+          | some a => (a.toList.mapM jSpec?).map .tuple
+          | none => (field r "single" >>= jSpec?).map .single)
+      | none => none
+    let results? := (field j "results" >>= jArr?) >>= (fun a => a.toList.mapM jRat?)
+    (match specs?, ret?, results? with
+      | some specs, some ret, some results =>
+        (st, exceptJ (fun (r : List Wraps.Val × List (String × Wraps.Val) × List Wraps.Val) =>
+          Json.mkObj [("recv", Json.arr (r.1.map valJ).toArray),
+                      ("kw", Json.arr (((r.2.1.toArray.qsort (fun a b => a.1 < b.1)).map fun e => Json.arr #[Json.str e.1, valJ e.2]))),
+                      ("ret", Json.arr (r.2.2.map valJ).toArray)])
+          (Wraps.wrapperCall conv specs ret ((fBool j "strict").getD true) sig args kw results))
+      | _, _, _ => (st, badJ "wraps call: specs/ret/results"))
+  | some "check", some sig, some args, some kw =>
+    let dims? : Option (List (Option UC)) := (field j "dims" >>= jArr?) >>= (fun a => a.toList.mapM fun d =>
+      match d with | Json.null => some none | _ => (jUC? d).map some)
+    (match dims? with
+      | some dims => (st, exceptJ (fun _ => Json.null) (Wraps.checkCall dimOf dims sig args kw))
+      | none => (st, badJ "wraps check: dims"))
+  | _, _, _, _ => (st, badJ "wraps: f/sig/args/kw")
+
 /-! ### registry queries (C01, C02, C08) -/
 
 def stepReg (st : DriverState) (op : String) (j : Json) : DriverState × Json :=
@@ -618,6 +681,7 @@ def step (st : DriverState) (j : Json) : DriverState × Json :=
   | some "ctx" => stepCtx st j
   | some "gs" => stepGS st j
   | some "rw" => stepRw st j
+  | some "wraps" => stepWraps st j
   | some op => stepReg st op j
 
 end Pint
